@@ -149,9 +149,15 @@ acmeNet OBJECT-TYPE SYNTAX NetworkAddress ACCESS read-only STATUS mandatory DESC
 END
 '''
 V2_CAPS_TEMPLATE = '''ACME-CAPS-MIB DEFINITIONS ::= BEGIN
-IMPORTS MODULE-IDENTITY, enterprises FROM SNMPv2-SMI AGENT-CAPABILITIES FROM SNMPv2-CONF;
+IMPORTS MODULE-IDENTITY, enterprises, NOTIFICATION-TYPE, OBJECT-TYPE, Integer32 FROM SNMPv2-SMI AGENT-CAPABILITIES FROM SNMPv2-CONF;
 acmeCaps MODULE-IDENTITY LAST-UPDATED "200001010000Z" ORGANIZATION "o" CONTACT-INFO "c" DESCRIPTION "d" ::= { enterprises 98 }
 %s
+acmeNotif NOTIFICATION-TYPE STATUS current DESCRIPTION "n" ::= { acmeCaps 90 }
+acmeTable OBJECT-TYPE SYNTAX SEQUENCE OF AcmeEntry MAX-ACCESS not-accessible STATUS current DESCRIPTION "t" ::= { acmeCaps 91 }
+acmeEntry OBJECT-TYPE SYNTAX AcmeEntry MAX-ACCESS not-accessible STATUS current DESCRIPTION "e" INDEX { acmeIdx } ::= { acmeTable 1 }
+AcmeEntry ::= SEQUENCE { acmeIdx Integer32, acmeState INTEGER }
+acmeIdx OBJECT-TYPE SYNTAX Integer32 MAX-ACCESS not-accessible STATUS current DESCRIPTION "i" ::= { acmeEntry 1 }
+acmeState OBJECT-TYPE SYNTAX INTEGER { up(1), down(2) } MAX-ACCESS read-only STATUS current DESCRIPTION "s" ::= { acmeEntry 2 }
 END
 '''
 
